@@ -297,7 +297,7 @@ def reply_for(m, zone: str) -> bytes:
 
 
 async def serve_http(loop, stream, log, *, zone, addr, conn_id, is_proxy=False, proxy_tls_ports=TLS_PORTS,
-                     pos=0, idle=25.0, connect_status=200, e2e_tls=None):
+                     pos=0, idle=25.0, connect_status=200, e2e_tls=None, tunnel_sniff=False):
     """zone: 'origin' (directly connected server), 'proxy' (upstream proxy level), 'tunnel' (origin reached
     through a CONNECT tunnel of the proxy peer).  Every complete request is appended to `log`.
     Log field 'tls' says whether THIS zone's bytes were protected by a TLS session ending at this zone (for the
@@ -341,7 +341,22 @@ async def serve_http(loop, stream, log, *, zone, addr, conn_id, is_proxy=False, 
             except ValueError:
                 target = (m.target.decode("latin1"), 0)
             inner, ipos = stream, pos
-            if target[1] in proxy_tls_ports:
+            speaks_tls = target[1] in proxy_tls_ports
+            if speaks_tls and tunnel_sniff:
+                # like serve_conn: an origin on a "TLS port" that is spoken to in plain HTTP answers in plain HTTP, so
+                # what was sent to it in the clear is read and logged (tls=False) instead of a failed handshake
+                while len(stream.buf) <= pos and not stream.eof:
+                    if not await stream.more(idle):
+                        break
+                if len(stream.buf) <= pos:
+                    # nothing came through the tunnel within the idle time (or it was closed): hang up
+                    log.append({"zone": "tunnel", "addr": target, "conn": conn_id, "tls": True,
+                                "garbage": "tls handshake failed: None", "raw": b"", "t": loop.time()})
+                    stream.close()
+                    return
+                if stream.buf[pos] != 0x16:
+                    speaks_tls = False
+            if speaks_tls:
                 inner = TlsStream(loop, stream, server_context(), server_side=True, lpos=pos)
                 ipos = 0
                 if not await inner.handshake(idle):
@@ -355,7 +370,7 @@ async def serve_http(loop, stream, log, *, zone, addr, conn_id, is_proxy=False, 
         stream.write(reply_for(m, zone))
 
 
-async def serve_conn(loop, conn, log, *, addr, is_proxy, tls, idle=25.0, connect_status=200):
+async def serve_conn(loop, conn, log, *, addr, is_proxy, tls, idle=25.0, connect_status=200, tunnel_sniff=False):
     """Entry point for a freshly accepted upstream connection."""
     base = ConnStream(loop, conn)
     stream = base
@@ -374,7 +389,7 @@ async def serve_conn(loop, conn, log, *, addr, is_proxy, tls, idle=25.0, connect
             base.close()
             return
     await serve_http(loop, stream, log, zone="proxy" if is_proxy else "origin", addr=addr, conn_id=conn.id,
-                     is_proxy=is_proxy, idle=idle, connect_status=connect_status)
+                     is_proxy=is_proxy, idle=idle, connect_status=connect_status, tunnel_sniff=tunnel_sniff)
 
 
 # ---------------------------------------------------------------------------
